@@ -23,9 +23,9 @@ func (ie *IndexExpression) String() string {
 	var out bytes.Buffer
 
 	out.WriteString("(")
-	out.WriteString(ie.Left.String())
+	out.WriteString(nodeString(ie.Left))
 	out.WriteString("[")
-	out.WriteString(ie.Index.String())
+	out.WriteString(nodeString(ie.Index))
 
 	if ie.Callee != nil {
 		out.WriteString("]")
